@@ -49,6 +49,25 @@ theorem C08_reset_today (fl : NFlags) (files : Disk) :
     (∀ (st : MSt) (t : MType), (mapStep codeToday files st t).2 = (mapStep codeToday files {} t).2) :=
   C08_reset codeToday rfl fl files
 
+/-- `map:"…"` tags, for EVERY value of the `mapTag` parameter (`srcTagMap` re-made per type, as at HEAD, or kept and filled
+    further): the output of a type is the output of a fresh generator unless the carried map holds an entry under a key that one of
+    the type's OWN source members (fields, accessor pseudo-fields, constructor parameters) is looked up under and that the type does
+    not tag itself.  So a tag can only ever reach another type through a SHARED member name - which is what the generated
+    packages are built around (tagged and untagged fields of one name in different types of a run) -/
+theorem C08_tag_leak_relevance (lk : Leaks) (hc : lk.mapCtor = false) (ha : lk.mapAcc = false) (files : Disk) (st : MSt) (t : MType)
+    (h : ∀ k ∈ srcTagKeys t, (tagTable t.tags).lookup k = none → st.tagMap.lookup k = none) :
+    (mapStep lk files st t).2 = (mapStep lk files {} t).2 :=
+  mapStep_tag_irrelevant lk hc ha files st t h
+
+/-- the hypothesis holds for a type that shares no untagged member name with the carried entries (Label / Rank against a carried
+    `Name ↦ Title`), also when the type re-tags the shared name itself; it fails for an untagged `Name` -/
+example :
+    let carried : MSt := { tagMap := [("Name", "Title")] }
+    let ok (t : MType) : Bool := (srcTagKeys t).all (fun k => ((tagTable t.tags).lookup k).isSome || (carried.tagMap.lookup k).isNone)
+    ok { name := "P", src := { fields := ["Label", "Rank"] }, dest := none } = true ∧
+    ok { name := "Q", src := { fields := ["ID", "Name"] }, dest := none, tags := [("Name", "Caption")] } = true ∧
+    ok { name := "R", src := { fields := ["ID", "Name"] }, dest := none } = false := by decide
+
 /-! concrete inputs (the shapes that leaked before the fixes; now asserted in `WF`) -/
 
 def wA : NType :=
@@ -344,6 +363,32 @@ theorem C08_collections_reset :
     classTable.all (fun c => c.2 ≠ Class.reset ||
       hasUncondReset Facts.genStateResets Facts.genStateCalls c.1.1 c.1.2.2) = true := by
   decide
+
+/-- the caches (`derived`: the loaded packages, the parsed template, the template-function map, the memoised `ShootNew`
+    interface, the mapper's package) in the CURRENT source: each is assigned only by its designated method(s), and of the four
+    `Generator` structs' caches only `mapper.mapperpkg` (set when the type embeds a mapper and read only then, by `parseMapper`)
+    and `mapper.newShooter` (a constant) are assigned on the per-type path - `enumer.pkg` and `mapper.destPkg` are built when the
+    package is loaded, not while a type is processed.  Regenerated tables `genStateWrites`, `genStateCalls`. -/
+theorem C08_derived_sites :
+    classTable.all (fun c => c.2 ≠ Class.derived ||
+      match derivedSites.lookup (c.1.1, c.1.2.2) with
+      | some fns => (Facts.genStateWrites.filter (fun w => w.1 = c.1.1 && w.2.2.1 = c.1.2.2)).all (fun w => fns.contains w.2.1)
+      | none => false) = true ∧
+    (classTable.filter (fun c => c.2 = Class.derived && c.1.2.1 = "Generator" &&
+      Facts.genStateWrites.any (fun w => w.1 = c.1.1 && w.2.2.1 = c.1.2.2 &&
+        (reachFrom Facts.genStateCalls c.1.1 4 ["MakeData"]).contains w.2.1))).map (fun c => (c.1.1, c.1.2.2)) = perTypeCaches := by
+  decide
+
+/-- there is no per-process state OUTSIDE the Generator structs that could carry something from one type to the next: the only
+    package-level variables of cmd/shoot and internal/** in the CURRENT source are the four embedded template texts (`//go:embed`,
+    handed to NewGeneratorBase once) and the usage table of `main` (read for the help text).  A cache or a map kept in a
+    package-level variable (say the tags or the skipped names of the structs seen so far) makes this theorem fail.
+    Regenerated table `Facts.genPkgVars`. -/
+theorem C08_no_package_state :
+    Facts.genPkgVars.map (fun v => (v.1, v.2.2.1, String.ofList (v.2.2.2.toList.take 20))) =
+      [("cmd/shoot", "subCmdMap", "= map[string]string{"), ("internal/constructor", "tmplTxt", "string"),
+       ("internal/enumer", "tmplTxt", "string"), ("internal/mapper", "tmplTxt", "string"),
+       ("internal/restclient", "tmplTxt", "string")] := by decide
 
 /-! ## non-vacuity: concrete inputs -/
 
